@@ -1245,3 +1245,361 @@ Proof.
   - destruct d as [|d]; [vm_compute in H; discriminate|]. intros Hl. vm_compute in Hl. discriminate.
   - destruct d as [|d]; [vm_compute in H; discriminate|]. eexists. vm_compute. reflexivity.
 Qed.
+(* ---------- Part E: the query on the wire ---------- *)
+Definition keep1 (k : str) (v : json) : list (str * json) := if is_none v then [] else [(k, v)].
+Definition prep (v : json) : json := empty_dict_to_text (jsonify_val v).
+
+Lemma entry_loop_false k v : entry_loop false (k, v) = flat_map (keep1 k) (iter_values v).
+Proof. reflexivity. Qed.
+
+Lemma urlencode_count_app a b : urlencode_count (a ++ b) = (urlencode_count a + urlencode_count b)%nat.
+Proof. induction a as [|x a IH]; cbn [app urlencode_count fold_right]; [reflexivity|]. fold (urlencode_count (a ++ b)). fold (urlencode_count a). rewrite IH. lia. Qed.
+
+Lemma keep1_count_key k k' l : urlencode_count (flat_map (keep1 k) l) = urlencode_count (flat_map (keep1 k') l).
+Proof.
+  induction l as [|v l IH]; [reflexivity|]. cbn [flat_map]. rewrite !urlencode_count_app, IH. f_equal.
+  unfold keep1. destruct (is_none v); reflexivity.
+Qed.
+
+Definition vcount (v : json) : nat := urlencode_count (flat_map (keep1 []) (iter_values v)).
+
+Lemma entry_count_vcount v : entry_count v = vcount (prep v).
+Proof. reflexivity. Qed.
+
+Lemma encode_loop_count q : urlencode_count (encode_loop false q) = fold_right (fun kv n => (vcount (snd kv) + n)%nat) 0%nat q.
+Proof.
+  induction q as [|[k v] q IH]; [reflexivity|]. unfold encode_loop in *. cbn [flat_map fold_right snd].
+  rewrite urlencode_count_app, IH, entry_loop_false. unfold vcount. rewrite (keep1_count_key k []). reflexivity.
+Qed.
+
+Lemma wire_count_sum q : wire_count q = fold_right (fun kv n => (entry_count (snd kv) + n)%nat) 0%nat q.
+Proof.
+  unfold wire_count, wire_result. rewrite encode_loop_count. unfold prepare_query, jsonify_query.
+  induction q as [|[k v] q IH]; [reflexivity|]. cbn [map fold_right fst snd]. rewrite IH. reflexivity.
+Qed.
+
+Lemma jsonify_obj_keys kvs :
+  map fst ((fix go (l : list (str * json)) : list (str * json) :=
+              match l with [] => [] | (k, x) :: r => (k, jsonify_val x) :: go r end) kvs) = map fst kvs.
+Proof. induction kvs as [|[k x] r IH]; [reflexivity|]. cbn [map fst]. f_equal. exact IH. Qed.
+
+Lemma iter_values_obj kvs : iter_values (JObj kvs) = map (fun k => JStr k) (map fst kvs).
+Proof. cbn [iter_values]. rewrite map_map. reflexivity. Qed.
+
+(* the raw value never sends more than the prepared one; the same unless it is None or the empty dict *)
+Lemma vcount_prep_le v : (vcount v <= vcount (prep v))%nat.
+Proof.
+  destruct v as [| b | z | s | l | kvs]; unfold prep; cbn [jsonify_val empty_dict_to_text].
+  - vm_compute; lia.
+  - destruct b; vm_compute; lia.
+  - lia.
+  - lia.
+  - lia.
+  - destruct kvs as [|[k x] r]; [vm_compute; lia|].
+    cbn [empty_dict_to_text]. unfold vcount. rewrite !iter_values_obj.
+    change ((k, jsonify_val x) :: _) with ((fix go (l : list (str * json)) : list (str * json) :=
+              match l with [] => [] | (k, x) :: r => (k, jsonify_val x) :: go r end) ((k, x) :: r)).
+    rewrite jsonify_obj_keys. lia.
+Qed.
+
+Lemma vcount_prep_eq v : match v with JNull | JObj [] => false | _ => true end = true -> vcount (prep v) = vcount v.
+Proof.
+  destruct v as [| b | z | s | l | kvs]; unfold prep; cbn [jsonify_val empty_dict_to_text]; intros H.
+  - discriminate.
+  - destruct b; reflexivity.
+  - reflexivity.
+  - reflexivity.
+  - reflexivity.
+  - destruct kvs as [|[k x] r]; [discriminate|].
+    cbn [empty_dict_to_text]. unfold vcount. rewrite !iter_values_obj.
+    change ((k, jsonify_val x) :: _) with ((fix go (l : list (str * json)) : list (str * json) :=
+              match l with [] => [] | (k, x) :: r => (k, jsonify_val x) :: go r end) ((k, x) :: r)).
+    rewrite jsonify_obj_keys. reflexivity.
+Qed.
+
+Lemma guard_count_le_wire q : (urlencode_count (encode_loop false q) <= wire_count q)%nat.
+Proof.
+  rewrite encode_loop_count, wire_count_sum.
+  induction q as [|[k v] q IH]; cbn [fold_right snd]; [lia|]. rewrite entry_count_vcount. pose proof (vcount_prep_le v). lia.
+Qed.
+
+(* T1 *)
+Lemma query_guard_sound q : is_non_empty_query q = true -> wire_count q <> 0%nat.
+Proof.
+  unfold is_non_empty_query, urlencode_nonempty. intros H. apply negb_true_iff in H. apply Nat.eqb_neq in H.
+  pose proof (guard_count_le_wire q). lia.
+Qed.
+
+(* T2 *)
+Lemma query_guard_exact q : no_none_or_empty_dict q = true ->
+  is_non_empty_query q = negb (Nat.eqb (wire_count q) 0).
+Proof.
+  intros H. unfold is_non_empty_query, urlencode_nonempty. f_equal. f_equal.
+  rewrite encode_loop_count, wire_count_sum. unfold no_none_or_empty_dict in H.
+  induction q as [|[k v] q IH]; [reflexivity|]. cbn [forallb snd] in H. apply andb_true_iff in H. destruct H as [Hv Hq].
+  cbn [fold_right snd]. rewrite entry_count_vcount, (vcount_prep_eq v Hv), (IH Hq). reflexivity.
+Qed.
+
+(* ---- the pairs ---- *)
+Fixpoint texts (l : list json) : option (list str) :=
+  match l with
+  | [] => Some []
+  | v :: r => if is_none v then texts r else
+              match doseq_texts v, texts r with Some a, Some b => Some (a ++ b) | _, _ => None end
+  end.
+
+Lemma urlencode_pairs_app a b :
+  urlencode_pairs (a ++ b) = match urlencode_pairs a, urlencode_pairs b with Some x, Some y => Some (x ++ y) | _, _ => None end.
+Proof.
+  induction a as [|[k v] a IH]; cbn [app urlencode_pairs].
+  - destruct (urlencode_pairs b); reflexivity.
+  - rewrite IH. destruct (doseq_texts v); [|reflexivity]. destruct (urlencode_pairs a); [|reflexivity].
+    destruct (urlencode_pairs b); [|reflexivity]. rewrite app_assoc. reflexivity.
+Qed.
+
+Lemma pairs_keep1 k l :
+  urlencode_pairs (flat_map (keep1 k) l) = match texts l with Some ts => Some (map (fun t => (k, t)) ts) | None => None end.
+Proof.
+  induction l as [|v l IH]; [reflexivity|]. cbn [flat_map texts]. rewrite urlencode_pairs_app, IH. unfold keep1.
+  destruct (is_none v).
+  - cbn [urlencode_pairs]. destruct (texts l); reflexivity.
+  - cbn [urlencode_pairs]. destruct (doseq_texts v); [|reflexivity]. destruct (texts l); [|reflexivity].
+    rewrite app_nil_r, map_app. reflexivity.
+Qed.
+
+Lemma all_some_len {A} (l : list (option A)) ts : all_some l = Some ts -> length ts = length l.
+Proof.
+  revert ts. induction l as [|[x|] l IH]; cbn [all_some]; intros ts H; try discriminate.
+  - injection H as <-. reflexivity.
+  - destruct (all_some l); [|discriminate]. injection H as <-. cbn [length]. f_equal. apply IH. reflexivity.
+Qed.
+
+Lemma doseq_texts_len v ts : doseq_texts v = Some ts -> length ts = doseq_len v.
+Proof.
+  destruct v as [| b | z | s | l | kvs]; cbn [doseq_texts doseq_len py_str py_repr]; intros H.
+  - injection H as <-. reflexivity.
+  - injection H as <-. reflexivity.
+  - injection H as <-. reflexivity.
+  - injection H as <-. reflexivity.
+  - apply all_some_len in H. rewrite map_length in H. exact H.
+  - injection H as <-. apply map_length.
+Qed.
+
+Lemma texts_len k l ts : texts l = Some ts -> length ts = urlencode_count (flat_map (keep1 k) l).
+Proof.
+  revert ts. induction l as [|v l IH]; cbn [texts flat_map]; intros ts H.
+  - injection H as <-. reflexivity.
+  - rewrite urlencode_count_app. unfold keep1 at 1. destruct (is_none v).
+    + cbn [urlencode_count fold_right]. apply IH. exact H.
+    + destruct (doseq_texts v) as [a|] eqn:Ea; [|discriminate]. destruct (texts l) as [b|]; [|discriminate].
+      injection H as <-. rewrite app_length, (IH b eq_refl). cbn [urlencode_count fold_right snd].
+      rewrite (doseq_texts_len _ _ Ea). lia.
+Qed.
+
+Definition vtexts (v : json) : option (list str) := texts (iter_values (prep v)).
+
+Lemma entry_wire_vtexts v : entry_wire v = vtexts v.
+Proof.
+  unfold entry_wire, vtexts, prep. rewrite entry_loop_false, pairs_keep1.
+  destruct (texts _) as [ts|]; [|reflexivity]. rewrite map_map. cbn [snd]. rewrite map_id. reflexivity.
+Qed.
+
+Lemma vtexts_len v ts : vtexts v = Some ts -> length ts = entry_count v.
+Proof. intros H. rewrite entry_count_vcount. unfold vcount. apply texts_len. exact H. Qed.
+
+Fixpoint qpairs (q : jq) : option (list (str * str)) :=
+  match q with
+  | [] => Some []
+  | kv :: r => match vtexts (snd kv), qpairs r with
+               | Some ts, Some ps => Some (map (fun t => (fst kv, t)) ts ++ ps)
+               | _, _ => None
+               end
+  end.
+
+Lemma query_wire_qpairs q : query_wire q = qpairs q.
+Proof.
+  unfold query_wire, wire_result, prepare_query, jsonify_query, encode_loop.
+  induction q as [|[k v] q IH]; [reflexivity|]. cbn [map flat_map fst snd qpairs].
+  rewrite urlencode_pairs_app, IH, entry_loop_false, pairs_keep1. unfold vtexts, prep.
+  destruct (texts _); [|reflexivity]. destruct (qpairs q); reflexivity.
+Qed.
+
+Lemma count_key_app k a b : count_key k (a ++ b) = (count_key k a + count_key k b)%nat.
+Proof. unfold count_key. rewrite filter_app, app_length. reflexivity. Qed.
+
+Lemma count_key_same k ts : count_key k (map (fun t => (k, t)) ts) = length ts.
+Proof.
+  unfold count_key. induction ts as [|t ts IH]; [reflexivity|]. cbn [map filter fst]. rewrite str_eqb_refl. cbn [length]. f_equal. exact IH.
+Qed.
+
+(* every pair carries the name of an entry; an entry sends its texts under its name *)
+Lemma qpairs_keys q ps k t : qpairs q = Some ps -> In (k, t) ps -> In k (map fst q).
+Proof.
+  revert ps. induction q as [|[k0 v] q IH]; cbn [qpairs fst snd]; intros ps H Hin.
+  - injection H as <-. destruct Hin.
+  - destruct (vtexts v) as [ts|]; [|discriminate]. destruct (qpairs q) as [ps'|]; [|discriminate]. injection H as <-.
+    apply in_app_or in Hin. destruct Hin as [Hin|Hin].
+    + apply in_map_iff in Hin. destruct Hin as [t' [E _]]. injection E as <- _. left. reflexivity.
+    + right. eapply IH; [reflexivity|exact Hin].
+Qed.
+
+Lemma qpairs_entry q ps k v : qpairs q = Some ps -> In (k, v) q ->
+  exists ts, vtexts v = Some ts /\ (forall t, In t ts -> In (k, t) ps) /\ (length ts <= count_key k ps)%nat.
+Proof.
+  revert ps. induction q as [|[k0 v0] q IH]; cbn [qpairs fst snd]; intros ps H Hin; [destruct Hin|].
+  destruct (vtexts v0) as [ts0|] eqn:E0; [|discriminate]. destruct (qpairs q) as [ps'|]; [|discriminate]. injection H as <-.
+  destruct Hin as [Hin|Hin].
+  - injection Hin as -> ->. exists ts0. split; [exact E0|]. split.
+    + intros t Ht. apply in_or_app. left. apply in_map_iff. exists t. split; [reflexivity|exact Ht].
+    + rewrite count_key_app, count_key_same. lia.
+  - destruct (IH ps' eq_refl Hin) as [ts [A [B C]]]. exists ts. split; [exact A|]. split.
+    + intros t Ht. apply in_or_app. right. apply B. exact Ht.
+    + rewrite count_key_app. lia.
+Qed.
+
+Lemma forallb_false_of {A} (f : A -> bool) l x : In x l -> f x = false -> forallb f l = false.
+Proof.
+  intros Hin Hf. destruct (forallb f l) eqn:E; [|reflexivity].
+  rewrite forallb_forall in E. rewrite (E x Hin) in Hf. discriminate.
+Qed.
+
+Lemma forallb_false_ex {A} (f : A -> bool) l : forallb f l = false -> exists x, In x l /\ f x = false.
+Proof.
+  induction l as [|a l IH]; cbn [forallb]; intros H; [discriminate|].
+  destruct (f a) eqn:E.
+  - cbn [andb] in H. destruct (IH H) as [x [Hin Hx]]. exists x. split; [right; exact Hin|exact Hx].
+  - exists a. split; [left; reflexivity|exact E].
+Qed.
+
+Lemma assoc_mem_false_not_in {A} k (q : list (str * A)) : assoc_mem k q = false -> ~ In k (map fst q).
+Proof.
+  unfold assoc_mem. induction q as [|[k0 v] q IH]; cbn [assoc_get map fst]; intros H Hin; [destruct Hin|].
+  destruct (str_eqb k k0) eqn:E; [discriminate|]. destruct Hin as [Hin|Hin].
+  - subst k0. rewrite str_eqb_refl in E. discriminate.
+  - exact (IH H Hin).
+Qed.
+
+Lemma has_key_false k ps : (forall t, ~ In (k, t) ps) -> has_key k ps = false.
+Proof.
+  intros H. unfold has_key. destruct (existsb _ ps) eqn:E; [|reflexivity].
+  apply existsb_exists in E. destruct E as [[k' t] [Hin Hk]]. cbn [fst] in Hk. apply str_eqb_spec in Hk. subst k'.
+  exfalso. exact (H t Hin).
+Qed.
+
+(* T4: an invalid query whose offending entries survive is invalid on the wire *)
+Lemma invalid_query_invalid_on_wire d q ps :
+  valid_query d q = false -> query_survives d q = true -> query_wire q = Some ps -> wire_valid_query d ps = false.
+Proof.
+  intros Hv Hs Hw. rewrite query_wire_qpairs in Hw. unfold wire_valid_query.
+  unfold valid_query in Hv. apply andb_false_iff in Hv. destruct Hv as [Hv|Hv].
+  - apply forallb_false_ex in Hv. destruct Hv as [[k v] [Hin Hbad]]. cbn [fst snd] in Hbad.
+    unfold query_survives in Hs. rewrite forallb_forall in Hs. specialize (Hs _ Hin). unfold entry_survives in Hs. cbn [fst snd] in Hs.
+    destruct (qpairs_entry _ _ _ _ Hw Hin) as [ts [Ht [Hall Hcnt]]]. pose proof (vtexts_len _ _ Ht) as Hlen.
+    apply andb_false_iff. left.
+    destruct (assoc_get k d) as [p|] eqn:Ed.
+    + rewrite Hbad in Hs. cbn [orb] in Hs. apply orb_true_iff in Hs. destruct Hs as [Hs|Hs].
+      * apply Nat.leb_le in Hs. destruct ts as [|t ts']; [cbn [length] in Hlen; lia|].
+        apply (forallb_false_of _ _ (k, t)); [apply Hall; left; reflexivity|]. cbn [fst snd]. rewrite Ed.
+        apply andb_false_iff. right. apply Nat.eqb_neq. lia.
+      * rewrite entry_wire_vtexts, Ht in Hs. destruct ts as [|w [|w' ts']]; try discriminate.
+        apply (forallb_false_of _ _ (k, w)); [apply Hall; left; reflexivity|]. cbn [fst snd]. rewrite Ed.
+        apply negb_true_iff in Hs. rewrite Hs. reflexivity.
+    + apply Nat.leb_le in Hs. destruct ts as [|t ts']; [cbn [length] in Hlen; lia|].
+      apply (forallb_false_of _ _ (k, t)); [apply Hall; left; reflexivity|]. cbn [fst snd]. rewrite Ed. reflexivity.
+  - apply forallb_false_ex in Hv. destruct Hv as [[k p] [Hin Hbad]]. cbn [fst snd] in Hbad.
+    apply orb_false_iff in Hbad. destruct Hbad as [Hreq Hmem].
+    apply andb_false_iff. right. apply (forallb_false_of _ _ (k, p) Hin). cbn [fst snd]. rewrite Hreq. cbn [orb].
+    apply has_key_false. intros t Hint. apply (assoc_mem_false_not_in _ _ Hmem). eapply qpairs_keys; [exact Hw|exact Hint].
+Qed.
+
+Lemma query_wire_len q ps : query_wire q = Some ps -> length ps = wire_count q.
+Proof.
+  rewrite query_wire_qpairs, wire_count_sum. revert ps.
+  induction q as [|[k v] q IH]; cbn [qpairs fold_right fst snd]; intros ps H.
+  - injection H as <-. reflexivity.
+  - destruct (vtexts v) as [ts|] eqn:E; [|discriminate]. destruct (qpairs q) as [ps'|]; [|discriminate]. injection H as <-.
+    rewrite app_length, map_length, (vtexts_len _ _ E), (IH ps' eq_refl). reflexivity.
+Qed.
+
+(* the theorem of the property for the query location, with the guard of the code *)
+Lemma negative_query_on_wire d q ps :
+  passes_query_filter is_non_empty_query d q = true -> query_survives d q = true -> query_wire q = Some ps ->
+  ps <> [] /\ wire_valid_query d ps = false.
+Proof.
+  unfold passes_query_filter. intros Hp Hs Hw. apply andb_true_iff in Hp. destruct Hp as [Hg Hv]. apply negb_true_iff in Hv.
+  split.
+  - intros ->. apply query_guard_sound in Hg. apply query_wire_len in Hw. cbn [length] in Hw. congruence.
+  - eapply invalid_query_invalid_on_wire; eassumption.
+Qed.
+
+(* T5: scalar values inside the coercion region survive *)
+Lemma scalar_entry_wire v : is_container v = false -> entry_count v = 1%nat /\ entry_wire v = match coerce v with Some w => Some [w] | None => None end.
+Proof. destruct v as [| b | z | s | l | kvs]; intros H; try discriminate; split; reflexivity. Qed.
+
+Lemma scalar_query_survives d q : scalar_query_safe d q = true -> query_survives d q = true.
+Proof.
+  unfold scalar_query_safe, query_survives. rewrite !forallb_forall. intros H [k v] Hin. specialize (H _ Hin). cbn [fst snd] in H.
+  apply andb_true_iff in H. destruct H as [Hc Hd]. apply negb_true_iff in Hc. destruct (scalar_entry_wire v Hc) as [Hn Hw].
+  unfold entry_survives. cbn [fst snd]. rewrite Hn, Hw. destruct (assoc_get k d) as [p|]; [|reflexivity].
+  destruct (valid_prim (q_type p) v) eqn:Ev; [reflexivity|]. cbn [orb] in Hd |- *.
+  destruct (coerce v) as [w|] eqn:Ew.
+  - rewrite (invalid_survives_coercion _ _ _ Hd Ev Ew). reflexivity.
+  - destruct v; try discriminate.
+Qed.
+
+(* ---- witnesses ---- *)
+Definition k_limit : str := [108; 105; 109; 105; 116]%N.
+Definition k_zz : str := [122; 122]%N.
+Definition k_a : str := [97]%N.
+Definition d_limit : qdecl := [(k_limit, {| q_type := PInt; q_required := false |})].
+Definition q_list_of_none : jq := [(k_limit, JArr [JNull])].
+Definition q_vanishing : jq := [(k_limit, JInt 5); (k_zz, JArr [])].
+Definition q_none_and_one : jq := [(k_limit, JArr [JNull; JInt 1])].
+Definition q_top_none : jq := [(k_a, JNull)].
+
+(* the sentinel: a guard that counts None as the text null lets the list of None through; nothing is sent *)
+Lemma none_as_null_guard_refuted :
+  passes_query_filter is_non_empty_query_none_as_null d_limit q_list_of_none = true /\
+  query_wire q_list_of_none = Some [] /\ wire_valid_query d_limit [] = true /\
+  passes_query_filter is_non_empty_query d_limit q_list_of_none = false.
+Proof. repeat split. Qed.
+
+(* F8: with the guard of the code: the offending entry sends nothing, the rest is a valid query *)
+Lemma negative_query_on_wire_refuted_dropped :
+  passes_query_filter is_non_empty_query d_limit q_vanishing = true /\ entry_dropped q_vanishing = true /\
+  query_wire q_vanishing = Some [(k_limit, [53%N])] /\ wire_valid_query d_limit [(k_limit, [53%N])] = true.
+Proof. repeat split. Qed.
+
+(* F3 with containers: None items are dropped, the single remaining item is sent as its text *)
+Lemma negative_query_on_wire_refuted_none_item :
+  passes_query_filter is_non_empty_query d_limit q_none_and_one = true /\ entry_dropped q_none_and_one = false /\
+  query_wire q_none_and_one = Some [(k_limit, [49%N])] /\ wire_valid_query d_limit [(k_limit, [49%N])] = true.
+Proof. repeat split. Qed.
+
+(* the guard over-rejects a top-level None (and the empty dict): sent as a=null (a=), seen as nothing *)
+Lemma query_guard_exact_refuted :
+  is_non_empty_query q_top_none = false /\ wire_count q_top_none = 1%nat /\ query_wire q_top_none = Some [(k_a, s_null)] /\
+  is_non_empty_query [(k_a, JObj [])] = false /\ query_wire [(k_a, JObj [])] = Some [(k_a, [])].
+Proof. repeat split. Qed.
+
+(* non-vacuity: containers inside the region; the hypotheses of the main statement hold for them *)
+Definition d_two : qdecl := [(k_limit, {| q_type := PInt; q_required := false |}); (k_a, {| q_type := PBool; q_required := true |})].
+Definition q_survivor : jq := [(k_limit, JArr [JNull; JInt 1; JInt 2]); (k_zz, JArr [JArr [JNull]]); (k_a, JBool true)].
+Lemma query_on_wire_nonvacuous :
+  passes_query_filter is_non_empty_query d_two q_survivor = true /\ query_survives d_two q_survivor = true /\
+  query_wire q_survivor = Some [(k_limit, [49%N]); (k_limit, [50%N]); (k_zz, [78; 111; 110; 101]%N); (k_a, s_true)] /\
+  no_none_or_empty_dict q_survivor = true /\
+  scalar_query_safe d_two [(k_limit, JBool false); (k_zz, JNull)] = true /\
+  passes_query_filter is_non_empty_query d_two [(k_limit, JBool false); (k_zz, JNull)] = true.
+Proof. repeat split. Qed.
+
+(* F9: the guard runs before the serializer.  f = {x: [None]} is seen by the guard as the pair f=x; extracted_object
+   replaces f by its members, x = [None] sends nothing *)
+Definition k_f : str := [102]%N.
+Definition k_x : str := [120]%N.
+Definition q_exploded : jq := [(k_f, JObj [(k_x, JArr [JNull])])].
+Lemma query_guard_sound_refuted_exploded :
+  is_non_empty_query q_exploded = true /\ extracted_object k_f q_exploded = [(k_x, JArr [JNull])] /\
+  wire_count (extracted_object k_f q_exploded) = 0%nat /\ query_wire (extracted_object k_f q_exploded) = Some [] /\
+  wire_count q_exploded = 1%nat.
+Proof. repeat split. Qed.
